@@ -806,7 +806,7 @@ open Goml.GoConst
 
 /-! ### the KIND of a printed float literal (integer vs floating-point constant) -/
 
-theorem takeWhile_all' (p : Char → Bool) (xs : List Char) (h : ∀ c ∈ xs, p c = true) :
+theorem takeWhile_all_eq (p : Char → Bool) (xs : List Char) (h : ∀ c ∈ xs, p c = true) :
     xs.takeWhile p = xs ∧ xs.dropWhile p = [] := by
   induction xs with
   | nil => simp
@@ -862,7 +862,7 @@ theorem litValL_whole_suffixed (n : Nat) :
   unfold litValL
   rw [isFloatText_suffixed]
   simp only [if_true, ofGoFloatText]
-  rw [(takeWhile_all' _ _ hE).1, (takeWhile_all' _ _ hE).2]
+  rw [(takeWhile_all_eq _ _ hE).1, (takeWhile_all_eq _ _ hE).2]
   simp only [ofMantissa]
   rw [(takeWhile_stop _ (natToDec n) '.' ['0'] hP (by decide)).1, (takeWhile_stop _ (natToDec n) '.' ['0'] hP (by decide)).2]
   have h0 : IsDigits ['0'] := by decide
